@@ -698,7 +698,7 @@ func checkC08(c *Ctx) {
 		b := evalFresh(orText, m)
 		c.Res.Evaluations++
 		c.count("kind_" + kind)
-		if a.E == "badlit" && b.E == "badlit" {
+		if a.E == "badlit" || b.E == "badlit" {
 			c.count("skipped_unrepresentable_element")
 			continue
 		}
